@@ -47,6 +47,8 @@ impl Housekeeper {
     }
 
     pub(crate) fn try_sync<T: InnerSync>(&self, cache: &T) -> bool {
+        #[cfg(mini_moka_verif)]
+        crate::verif::sp("hk.cas");
         // Try to flip the value of sync_scheduled from false to true.
         match self.is_sync_running.compare_exchange(
             false,
@@ -55,11 +57,15 @@ impl Housekeeper {
             Ordering::Relaxed,
         ) {
             Ok(_) => {
+                #[cfg(mini_moka_verif)]
+                crate::verif::sp("hk.won");
                 let now = cache.now();
                 self.sync_after.set_instant(Self::sync_after(now));
 
                 cache.sync(MAX_SYNC_REPEATS);
 
+                #[cfg(mini_moka_verif)]
+                crate::verif::sp("hk.release");
                 self.is_sync_running.store(false, Ordering::Release);
                 true
             }
